@@ -8,6 +8,7 @@ exit 2: harness error (never a VIOLATION)
 import argparse
 import json
 import os
+import shutil
 import subprocess
 import sys
 import time
@@ -112,7 +113,7 @@ def main():
             return 2
         parts.append(ctx.partial())
     else:
-        wd = os.path.join(HERE, ".work", pid, "shards")
+        wd = os.path.join(HERE, ".work", pid, f"shards_p{os.getpid()}")
         os.makedirs(wd, exist_ok=True)
         procs = []
         for k in range(nsh):
@@ -137,6 +138,7 @@ def main():
             else:
                 with open(out) as f:
                     parts.append(json.load(f))
+        shutil.rmtree(wd, ignore_errors=True)
         if bad:
             print(f"HARNESS-ERROR property={pid} shard failed")
             return 2
